@@ -241,7 +241,15 @@ def translate(repo):
     for cls in [n for n in tree.body if isinstance(n, ast.ClassDef)]:
         methods = {}
         fns = [n for n in cls.body if isinstance(n, ast.FunctionDef)]
+        seen = set()
         for fn in fns:
+            if fn.name in seen:
+                raise Unsupported(f"{cls.name}.{fn.name} is defined twice")
+            seen.add(fn.name)
+            if fn.name.startswith("__") and fn.name != "__init__":
+                raise Unsupported(f"{cls.name}.{fn.name}: a special method changes what attribute access / calls on the object mean")
+            if not fn.args.args or fn.args.args[0].arg != "self":
+                raise Unsupported(f"{cls.name}.{fn.name}: first parameter is not `self`")
             params = []
             a = fn.args
             if a.vararg or a.kwarg or a.kwonlyargs or a.posonlyargs:
